@@ -19,7 +19,7 @@
 //!   does not know is sent as raw JSON (`noise what=x:<variant>`, `send … bad=3 inner=<variant>`) under all monitors.
 use cosmwasm_std::{Addr, Order, Storage};
 use lp_harness::minters::*;
-use lp_harness::world::{addr, addr_id};
+use lp_harness::world::{addr, addr_id, denom};
 use lp_harness::*;
 use serde_json::{json, Map, Value};
 use std::collections::{BTreeMap, BTreeSet};
@@ -426,6 +426,16 @@ impl S {
         ids.sort();
         Some(ids)
     }
+    /// remaining mintable ids in POSITION order (the permutation witness of `shuffle`)
+    fn mintable_by_pos(&self) -> Option<Vec<u64>> {
+        let st = self.w.app.contract_storage(&Addr::unchecked(self.a(SELF)));
+        let st: &dyn Storage = &*st;
+        let mut ids = vec![];
+        for e in token_merge_minter::state::MINTABLE_TOKEN_POSITIONS.range(st, None, None, Order::Ascending) {
+            ids.push(e.ok()?.1 as u64);
+        }
+        Some(ids)
+    }
     /// tokens that appeared in the target collection since the last look (id, owner); updates the ghost's view of it
     fn tgt_diff(&mut self) -> Vec<(u64, u64)> {
         if self.q_num(TGT) == self.g.tgt.len() as u64 {
@@ -694,6 +704,44 @@ impl Sut for S {
                 };
                 (format!("{line} w={}", ok as u8), format!("{} {st} ## exp={}", oks(ok), oks(ok)))
             }
+            "shuffle" => {
+                let (ca, me) = (self.a(g("caller")), self.a(SELF));
+                let fee = kv_u128(line, "pay").unwrap_or(self.shuffle_fee);
+                self.w.fund(&ca, 0, fee);
+                let funds: Vec<(u64, u128)> = if fee > 0 { vec![(0, fee)] } else { vec![] };
+                let ok = self.w.exec(&ca, &me, &json!({"shuffle": {}}), &funds).is_ok();
+                let post = self.simple(line, "shuffle", ok);
+                let perm = self.mintable_by_pos().map(|v| fmt_list(&v)).unwrap_or_else(|| "?".into());
+                (format!("{line} w={} perm={perm}", ok as u8), format!("{} left={}", oks(ok), post.left))
+            }
+            "tgt_xfer" | "tgt_burn" => {
+                let (caller, id) = (g("caller"), g("id"));
+                let msg = if op == "tgt_xfer" {
+                    json!({"transfer_nft": {"recipient": self.a(g("to")), "token_id": id.to_string()}})
+                } else {
+                    json!({"burn": {"token_id": id.to_string()}})
+                };
+                let (ca, tg) = (self.a(caller), self.a(TGT));
+                let ok = self.w.exec(&ca, &tg, &msg, &[]).is_ok();
+                let post = self.simple(line, op, ok);
+                let town = self.q_owner(TGT, id).unwrap_or(0);
+                (format!("{line} w={}", ok as u8), format!("{} town={town} tnum={}", oks(ok), post.tnum))
+            }
+            "govern" => {
+                let (m, d) = (g("maxlim"), g("denom"));
+                let p = kv_u128(line, "price").unwrap();
+                let msg = json!({"update_params": {"code_id": null, "add_sg721_code_ids": null, "rm_sg721_code_ids": null, "frozen": null, "creation_fee": null,
+                    "max_trading_offset_secs": null,
+                    "extension": {"max_token_limit": null, "max_per_address_limit": m, "airdrop_mint_price": {"denom": denom(d), "amount": p.to_string()},
+                                  "airdrop_mint_fee_bps": null, "shuffle_fee": null}}});
+                let f = self.a(TM_FACTORY);
+                let ok = self.w.sudo(&f, &msg).is_ok();
+                self.simple(line, "govern", ok);
+                let pr = self.w.query(&f, &json!({"params": {}})).unwrap_or(Value::Null);
+                let ml = pr["params"]["max_per_address_limit"].as_u64().unwrap_or(0);
+                let ap = pr["params"]["airdrop_mint_price"]["amount"].as_str().unwrap_or("0").to_string();
+                (format!("{line} w={}", ok as u8), format!("{} maxlim={ml} price={ap}", oks(ok)))
+            }
             "noise" => {
                 let what = kv(line, "what").unwrap_or("?").to_string();
                 let caller = kv_u64(line, "caller").unwrap_or(ADMIN);
@@ -855,6 +903,9 @@ impl Sut for S {
                 if post.dep != pre.dep {
                     return bad("ledger-changed-outside-deposit", format!("{:?} -> {:?}", pre.dep, post.dep));
                 }
+                if ["shuffle", "tgt_xfer", "tgt_burn", "govern", "noise"].contains(&kind.as_str()) && (post.cnt != pre.cnt || post.left != pre.left) {
+                    return bad("counters-changed-outside-mint", format!("mint counts {:?} -> {:?}, supply {} -> {}", pre.cnt, post.cnt, pre.left, post.left));
+                }
                 if kind == "set_start" && ok && gpre.now >= gpre.start {
                     return bad("start-moved-after-start", format!("start time moved {} -> {} at {} (deposits were already open)", gpre.start, post.start, gpre.now));
                 }
@@ -933,6 +984,10 @@ struct View {
     limit: u32,
     req: Vec<(u64, u32)>,
     maxid: u64,
+    /// the minter's own collection: token id -> owner
+    tgt: BTreeMap<u64, u64>,
+    /// airdrop price currently in force (governance may change it)
+    price: u128,
 }
 
 impl View {
@@ -994,6 +1049,7 @@ impl<'a> Gen<'a> {
     fn after_deposit(&mut self, out: &str, r: u64, c: u64, id: u64) -> (bool, bool) {
         let ok = out.starts_with("ok");
         let minted = ok && !out.contains(" m=- ");
+        self.note_minted(out);
         if ok {
             self.v.owner.remove(&(c, id));
             if minted {
@@ -1007,6 +1063,83 @@ impl<'a> Gen<'a> {
             }
         }
         (ok, minted)
+    }
+    /// remember a token that the op minted into the minter's collection (`m=<id> … town=<owner>`)
+    fn note_minted(&mut self, out: &str) {
+        if out.starts_with("ok") {
+            if let (Some(id), Some(o)) = (kv_u64(out, "m"), kv_u64(out, "town")) {
+                self.v.tgt.insert(id, o);
+            }
+        }
+    }
+    fn shuffle(&mut self, caller: u64, pay: Option<u128>) -> bool {
+        let extra = pay.map(|p| format!(" pay={p}")).unwrap_or_default();
+        let out = self.step(&format!("shuffle caller={caller}{extra}"));
+        let ok = out.starts_with("ok");
+        self.ses.mark(format!("shuffle:{}:{}:{}", if pay.is_some() { "odd-fee" } else { "fee" }, if self.v.left == 0 { "sold-out" } else { "supply" }, oks(ok)));
+        if ok {
+            self.ses.mark("floor:shuffle:ok");
+        }
+        ok
+    }
+    fn tgt_xfer(&mut self, caller: u64, id: u64, to: u64) -> bool {
+        let owner = self.v.tgt.get(&id).copied();
+        let out = self.step(&format!("tgt_xfer caller={caller} id={id} to={to}"));
+        let ok = out.starts_with("ok");
+        if ok {
+            self.v.tgt.insert(id, to);
+            self.ses.mark("floor:tgt_xfer:ok");
+        }
+        self.ses.mark(format!("tgt_xfer:{}:{}", if owner == Some(caller) { "owner" } else if owner.is_none() { "no-token" } else { "other" }, oks(ok)));
+        ok
+    }
+    fn tgt_burn(&mut self, caller: u64, id: u64) -> bool {
+        let owner = self.v.tgt.get(&id).copied();
+        let out = self.step(&format!("tgt_burn caller={caller} id={id}"));
+        let ok = out.starts_with("ok");
+        if ok {
+            self.v.tgt.remove(&id);
+            self.ses.mark("floor:tgt_burn:ok");
+        }
+        self.ses.mark(format!("tgt_burn:{}:{}", if owner == Some(caller) { "owner" } else if owner.is_none() { "no-token" } else { "other" }, oks(ok)));
+        ok
+    }
+    fn govern(&mut self, maxlim: u32, price: u128, denom_id: u64) -> bool {
+        let out = self.step(&format!("govern maxlim={maxlim} price={price} denom={denom_id}"));
+        let ok = out.starts_with("ok");
+        if ok {
+            self.v.price = price;
+            self.ses.mark("floor:govern:ok");
+        }
+        self.ses.mark(format!("govern:{}:{}", if denom_id == 0 { "native" } else { "foreign-denom" }, oks(ok)));
+        ok
+    }
+    /// one of the operations that only the extended model (`OpX`) can express
+    fn random_x(&mut self, users: &[u64]) {
+        match self.rng.below(7) {
+            0 | 1 => {
+                let caller = if self.rng.chance(1, 4) { ADMIN } else { *self.rng.pick(users) };
+                let pay = if self.rng.chance(1, 5) { Some(*self.rng.pick(&[0u128, 1, 500_000_001])) } else { None };
+                self.shuffle(caller, pay);
+            }
+            2 | 3 | 4 => {
+                let toks: Vec<(u64, u64)> = self.v.tgt.iter().map(|(a, b)| (*a, *b)).collect();
+                let (id, o) = if toks.is_empty() { (1, users[0]) } else { *self.rng.pick(&toks) };
+                let caller = if self.rng.chance(4, 5) { o } else { *self.rng.pick(users) };
+                if self.rng.chance(2, 3) {
+                    let to = *self.rng.pick(users);
+                    self.tgt_xfer(caller, id, to);
+                } else {
+                    self.tgt_burn(caller, id);
+                }
+            }
+            _ => {
+                let ml = *self.rng.pick(&[2u32, 3, 50, 60]);
+                let pr = *self.rng.pick(&[0u128, 1_000_000, 2_000_000]);
+                let d = if self.rng.chance(1, 6) { 1 } else { 0 };
+                self.govern(ml, pr, d);
+            }
+        }
     }
     /// returns (ok, minted)
     fn send(&mut self, caller: u64, c: u64, id: u64, to: u64, rcpt: Option<u64>, bad: u64, tag: &str) -> (bool, bool) {
@@ -1064,6 +1197,7 @@ impl<'a> Gen<'a> {
     fn mint_to(&mut self, caller: u64, rcpt: u64, pay: u128, price: u128) -> bool {
         let out = self.step(&format!("mint_to caller={caller} rcpt={rcpt} pay={pay}"));
         let ok = out.starts_with("ok");
+        self.note_minted(&out);
         self.ses.mark(format!(
             "mint_to:{}:{}:{}:{}",
             if caller == ADMIN { "admin" } else { "stranger" },
@@ -1152,8 +1286,8 @@ fn all_vectors() -> Vec<Vec<(u64, u32)>> {
 fn begin<'a>(ses: &'a mut Session, sut: &'a mut S, name: &str, req: &[(u64, u32)], start: u64, limit: u32, n: u32, price: u128) -> Gen<'a> {
     ses.begin_case(sut, &header(name, req, start, limit, n, price));
     let rng = ses.rng.fork();
-    let v = View { left: n, now: NOW0, start, limit, req: req.to_vec(), ..Default::default() };
-    let mut noise: Vec<String> = ["shuffle", "trading", "status", "migrate"].iter().map(|s| s.to_string()).collect();
+    let v = View { left: n, now: NOW0, start, limit, req: req.to_vec(), price, ..Default::default() };
+    let mut noise: Vec<String> = ["trading", "status", "migrate"].iter().map(|s| s.to_string()).collect();
     for u in unknown_of(&sut.exec_root, &KNOWN_EXEC) {
         noise.push(format!("x:{u}"));
     }
@@ -1340,6 +1474,7 @@ fn random_case(ses: &mut Session, sut: &mut S, idx: usize, req: &[(u64, u32)], n
         } else if roll < 78 {
             let caller = if g.rng.chance(5, 6) { ADMIN } else { users[0] };
             let rcpt = *g.rng.pick(&users);
+            let price = g.v.price;
             let pay = match g.rng.below(6) {
                 0 => price + 1,
                 1 => price.saturating_sub(1),
@@ -1349,8 +1484,9 @@ fn random_case(ses: &mut Session, sut: &mut S, idx: usize, req: &[(u64, u32)], n
         } else if roll < 81 {
             let id = g.rng.range(0, n as u64 + 1);
             let rcpt = *g.rng.pick(&users);
-            let out = g.step(&format!("mint_for caller={ADMIN} id={id} rcpt={rcpt} pay={price}"));
+            let out = g.step(&format!("mint_for caller={ADMIN} id={id} rcpt={rcpt} pay={}", g.v.price));
             let ok = out.starts_with("ok");
+            g.note_minted(&out);
             if ok {
                 *g.v.cnt.entry(rcpt).or_insert(0) += 1;
                 g.v.left -= 1;
@@ -1423,6 +1559,9 @@ fn random_case(ses: &mut Session, sut: &mut S, idx: usize, req: &[(u64, u32)], n
         } else {
             let t = g.v.now + 5;
             g.set_start(ADMIN, t);
+        }
+        if g.rng.chance(1, 10) {
+            g.random_x(&users);
         }
         if g.rng.chance(1, 5) {
             g.obs();
@@ -1728,7 +1867,7 @@ fn surface_case(ses: &mut Session, sut: &mut S, idx: usize, after_start: bool) {
         g.set_time(start + 1);
         g.send(u, COLLS[0], a, SELF, None, 0, "surface");
     }
-    g.noise("shuffle", v); // between the two deposits of one set
+    g.shuffle(v, None); // between the two deposits of one set
     g.noise("migrate", ADMIN);
     g.send(u, COLLS[1], b, SELF, None, 0, "surface");
     g.obs();
@@ -1747,6 +1886,7 @@ fn airdrop_case(ses: &mut Session, sut: &mut S, idx: usize, mint_for: bool) {
     g.send(u, COLLS[0], t[0], SELF, None, 0, "airdrop");
     let ok = if mint_for {
         let out = g.step(&format!("mint_for caller={ADMIN} id=2 rcpt={u} pay=0"));
+        g.note_minted(&out);
         if out.starts_with("ok") {
             *g.v.cnt.entry(u).or_insert(0) += 1;
             g.v.left -= 1;
@@ -1761,6 +1901,48 @@ fn airdrop_case(ses: &mut Session, sut: &mut S, idx: usize, mint_for: bool) {
     }
     g.obs();
     g.send(u, COLLS[0], t[1], SELF, None, 0, "airdrop");
+    g.obs();
+    ses.end_case();
+}
+
+/// scripted: the operations only `OpX` can express, with a partial ledger in place: Shuffle (right fee / wrong fee), holder transfer
+/// and burn of a minted token (owner / stranger), governance changing limit cap and airdrop price (native / foreign denom)
+fn xops_case(ses: &mut Session, sut: &mut S, idx: usize, sold_out: bool) {
+    let req = [(COLLS[0], 2u32)];
+    let start = NOW0 + 100;
+    let n = if sold_out { 1 } else { 4 };
+    let mut g = begin(ses, sut, &format!("xops{idx}"), &req, start, 3, n, 0);
+    let (u, v, x) = (20u64, 21u64, 22u64);
+    let tu: Vec<u64> = (0..2).map(|_| g.give(COLLS[0], u).unwrap()).collect();
+    let tv: Vec<u64> = (0..2).map(|_| g.give(COLLS[0], v).unwrap()).collect();
+    g.shuffle(u, None); // before the start: Shuffle is not gated by the start time
+    g.set_time(start + 1);
+    g.send(u, COLLS[0], tu[0], SELF, None, 0, "xops"); // u: 1 of 2
+    g.send(v, COLLS[0], tv[0], SELF, None, 0, "xops");
+    let (_, minted) = g.send(v, COLLS[0], tv[1], SELF, None, 0, "xops"); // v mints
+    let tok = g.v.tgt.iter().find(|(_, o)| **o == v).map(|(id, _)| *id).unwrap_or(1);
+    g.obs();
+    g.shuffle(u, None); // sold out when n = 1
+    g.shuffle(x, Some(0));
+    g.shuffle(x, Some(1));
+    g.tgt_xfer(u, tok, u); // not the owner
+    g.tgt_burn(x, tok);
+    g.tgt_xfer(v, tok, u);
+    g.tgt_burn(v, tok); // no longer the owner
+    g.obs();
+    g.tgt_burn(u, tok);
+    g.tgt_burn(u, tok); // gone
+    g.govern(2, 1_000_000, 1); // airdrop price in a foreign denom: refused
+    g.govern(2, 1_000_000, 0);
+    g.mint_to(ADMIN, x, 0, 1_000_000); // the old price no longer fits
+    g.mint_to(ADMIN, x, 1_000_000, 1_000_000);
+    g.set_limit(ADMIN, 3); // above the new cap (drift-only rule)
+    g.obs();
+    // u's partial ledger survived all of it: the second deposit completes the set
+    let (ok, m) = g.send(u, COLLS[0], tu[1], SELF, None, 0, "xops");
+    if minted && ((ok && m) || sold_out) {
+        g.ses.mark(format!("floor:xops:ledger-survives:{}", if sold_out { "sold-out" } else { "mint" }));
+    }
     g.obs();
     ses.end_case();
 }
@@ -1885,7 +2067,8 @@ fn main() {
         "floor:limit-lowered-between-deposits:err", "floor:limit-raised-again:mint",
         "floor:start-set-to-now:deposit-at-now:err", "floor:start-updated:deposit-at-start+1:ok", "floor:set_start:before:ok", "floor:set_start:started:err",
         "floor:by-operator:implicit-credits-sender", "floor:by-operator:expired:err", "floor:by-spender:implicit-credits-sender", "floor:by-spender:expired:err",
-        "floor:noise:shuffle:ok", "floor:noise:trading:ok", "floor:noise:status:ok", "floor:noise:migrate:ok",
+        "floor:shuffle:ok", "floor:tgt_xfer:ok", "floor:tgt_burn:ok", "floor:govern:ok", "floor:xops:ledger-survives:mint", "floor:xops:ledger-survives:sold-out",
+        "floor:noise:trading:ok", "floor:noise:status:ok", "floor:noise:migrate:ok",
         "floor:airdrop:mint-without-deposits:ledger-kept",
     ] {
         ses.require(c);
@@ -1931,6 +2114,8 @@ fn main() {
     surface_case(&mut ses, &mut sut, 1, true);
     airdrop_case(&mut ses, &mut sut, 0, false);
     airdrop_case(&mut ses, &mut sut, 1, true);
+    xops_case(&mut ses, &mut sut, 0, false);
+    xops_case(&mut ses, &mut sut, 1, true);
     // 4. vectors the factory does not refuse although the property does not speak about them
     let weird: Vec<Vec<(u64, u32)>> = vec![
         vec![],
